@@ -59,6 +59,41 @@ def check_value(s, v):
     return None
 
 
+_EXTENDED = []
+
+
+def user_extensions():
+    if _EXTENDED:
+        return
+    _EXTENDED.append(True)
+    from d42.declaration import SchemaVisitor
+    from d42.representation import Representor
+
+    class ExtFormatter(Formatter, extend=True):
+        def format_mc_custom_error(self, error):
+            return self._at_path(error, "custom") + self._get_type(error, 1, 2)
+
+        def _at_path(self, error, label):
+            return f"{label}@{error!r}"
+
+        def _get_type(self, a, b, c):
+            return "custom-type"
+
+        def _pluralize(self):
+            return "things"
+
+    class ExtRepresentor(Representor, extend=True):
+        def visit_mc_custom(self, schema, **kwargs):
+            return self._helper(schema)
+
+        def _helper(self, schema):
+            return "<mc>"
+
+    class ExtVisitor(SchemaVisitor, extend=True):
+        def visit_mc_custom(self, schema, **kwargs):
+            return None
+
+
 def _m_clear(v):
     v.clear()
 
@@ -156,6 +191,23 @@ def worker(shard, nshards, tier, seed):
                                "zoo_member": src(z), "kind": kind})
         if i % 101 == 0:
             acc.sample({"schema": show(t), "values": len(cases)})
+    # last in the shard: the user registers extensions through the documented `extend=True` route
+    # (a formatter with a new public method and PRIVATE helpers of its own, a representor and a
+    # schema visitor with new methods); rendering the built-in errors must be unaffected
+    user_extensions()
+    for i, t in shard_items(U, shard, nshards):
+        s, err = try_build(t)
+        if s is None:
+            continue
+        acc.count("schemas_again_after_user_extensions")
+        for v in [z for z in ZOO[::5]] + [w for w in M.witnesses(t)[:1]]:
+            for vv in ([v] + inject(M.witnesses(t)[0], v)[:4] if M.witnesses(t) else [v]):
+                acc.count("validations")
+                kind = check_value(s, vv)
+                if kind:
+                    acc.violation(f"C08|{kind}|{show(t)}|{zname(v)}|after-user-extensions",
+                                  {"term": src(t), "term_show": show(t), "value": src(vv),
+                                   "kind": kind, "user_extensions": True})
     return acc
 
 
@@ -209,6 +261,8 @@ def replay(case):
     s, err = try_build(t)
     if s is None:
         return f"build failed {err!r}"
+    if case.get("user_extensions"):
+        user_extensions()
     if "mutation" in case:
         first = check_value(s, v)
         {m.__name__: m for m in MUTATIONS}[case["mutation"]](v)
